@@ -177,11 +177,29 @@ func (g *gen) stmt(d, depth int) {
 			return
 		}
 		e := g.expr() // evaluated in the scope before the declaration takes effect
-		switch rx.Uniform(g.rt, 3, "declform") {
+		switch rx.Uniform(g.rt, 4, "declform") {
 		case 0:
 			g.line(d, "%s := %s", n, e)
 		case 1:
 			g.line(d, "var %s int = %s", n, e)
+		case 2:
+			// a parenthesised declaration group: each name is in scope from the end of its own line on, until the
+			// enclosing block (not the group) ends
+			g.line(d, "var (")
+			g.line(d+1, "%s int = %s", n, e)
+			g.declare(n)
+			if n2, ok := g.newName(); ok && rapid.Bool().Draw(g.rt, "groupsecond") {
+				if rapid.Bool().Draw(g.rt, "groupinit") {
+					g.line(d+1, "%s int = %s", n2, g.expr())
+				} else {
+					g.line(d+1, "%s int", n2)
+				}
+				g.declare(n2)
+				g.line(d, ")")
+				g.line(d, "_ = %s", n2)
+			} else {
+				g.line(d, ")")
+			}
 		default:
 			g.line(d, "var %s int", n)
 		}
